@@ -310,6 +310,10 @@ func checkC11(p *core.Program, r *core.Report) {
 	const R7 = "C11.R7 transport-end-is-reported"
 	r.Rule(R7, "every way the transport can end reaches the SHIP layer: read errors (peer close frames of any code included) and write errors are reported, the SHIP layer reacts with CloseConnection (shared with C13.R2/R4); and the local close path never calls back upward (a ReportConnectionError from inside CloseDataConnection re-enters the close-once and the end is never reported)")
 	importRules(p, r, "C13", map[string]string{"C13.R2 error-told-or-not": R7, "C13.R4 ship-reaction": R7, "C13.R7 no-report-from-local-close": R7}, nil)
+	const R8 = "C11.R8 every-end-and-every-connection-is-registered"
+	r.Rule(R8, "a handshake that enters a terminal state runs the close routine (or spawns the goroutine that does) on every path, so that its end is reported (shared with C04.R4); and every constructed connection is stored in the registry unconditionally, replacing the entry of the connection it supersedes (shared with C05.R4) - else the superseded connection's end report empties the registry while the new connection lives on unknown to the hub")
+	importRules(p, r, "C04", map[string]string{"C04.R4 transport-closed": R8}, nil)
+	importRules(p, r, "C05", map[string]string{"C05.R4 construct-run-register": R8}, nil)
 	_ = types.Typ
 }
 
